@@ -2,22 +2,28 @@
 
 use crate::ctx::Run;
 
+pub mod c01;
 pub mod c02;
 pub mod c08;
 pub mod c09;
+pub mod c10;
 pub mod c11;
 pub mod c15;
 pub mod c17;
+pub mod c18;
 
 pub fn dispatch(run: &mut Run, extra: &[String]) -> bool {
     let _ = extra;
     match run.prop.as_str() {
+        "C01" => c01::run(run),
         "C02" => c02::run(run),
         "C08" => c08::run(run),
         "C09" => c09::run(run),
+        "C10" => c10::run(run),
         "C11" => c11::run(run),
         "C15" => c15::run(run),
         "C17" => c17::run(run),
+        "C18" => c18::run(run),
         _ => return false,
     }
     true
